@@ -161,6 +161,19 @@ static std::unique_ptr<Tree> make_tree(const std::string& flavour, const std::st
       return make_own<int>([](const Key& k) { return k.at(0); },
                            [](int data, int key) { return data < key ? -1 : (key < data ? 1 : 0); },
                            [](int x) { return std::to_string(x); });
+   if (cmp == "diff")      // a lawful three-way order whose results are not confined to -1/0/+1
+      return make_own<long>([](const Key& k) { return static_cast<long>(k.at(0)); },
+                            [](long data, long key) { return data - key; },
+                            [](long x) { return std::to_string(x); });
+   if (cmp == "lexdiff")
+      return make_own<Key>([](const Key& k) { return k; },
+                           [](const Key& a, const Key& b) -> long {
+                              std::size_t i = 0;
+                              for (; i < a.size() and i < b.size(); ++i)
+                                 if (a[i] != b[i]) return static_cast<long>(a[i]) - static_cast<long>(b[i]);
+                              return static_cast<long>(a.size()) - static_cast<long>(b.size());
+                           },
+                           [](const Key& k) { return show_key(k); });
    if (cmp == "addr")
       return make_own<const Cell*>([](const Key& k) { return cell_of(k.at(0)); },
                                    [](const Cell* data, const Cell* key) { return std::less<const Cell*>{}(data, key) ? -1 : (std::less<const Cell*>{}(key, data) ? 1 : 0); },
@@ -179,7 +192,7 @@ int main()
       std::string op, a, b;
       is >> op >> a >> b;
       if (op.empty()) continue;
-      if (op == "new") { t = make_tree(a, b); std::cout << "ok\n"; }
+      if (op == "new") { t = make_tree(a, b); std::cout << "ok" << std::endl; }   // flush: a later hang must not lose finished sequences
       else if (t == nullptr) std::cout << "bad-op\n";
       else if (op == "ins") std::cout << t->insert(parse_key(a)) << '\n';
       else if (op == "find") std::cout << t->find(parse_key(a)) << '\n';
